@@ -43,7 +43,7 @@ var c13Kinds = []string{"append", "join", "joinbad", "values", "heads", "rawhead
 
 var c13Points = map[string][]string{
 	"append":      {"append.enter", "append.locked", "append.created", "append.indexed", "append.exit"},
-	"join":        {"join.enter", "join.locked", "join.diffed", "join.validated", "join.indexed", "join.applied", "join.exit"},
+	"join":        {"join.enter", "join.locked", "join.diffed", "join.validated", "join.indexed", "join.headsmerged", "join.applied", "join.exit"},
 	"values":      {"values.locked"},
 	"snapshot":    {"snapshot.locked"},
 	"jsonlog":     {"jsonlog.unlocked"},
